@@ -166,8 +166,35 @@ ClosedConvex(vp, fs) ==
     /\ \A e \in de : <<e[2], e[1]>> \in de
     /\ \A k \in 1..Len(fs) : \A j \in 1..Len(vp) : VDot(FaceN(ts[k]), VSub(vp[j], ts[k][1])) <= 0
 
+\* the closest point lies strictly inside an edge a-b shared by exactly two faces (normals N1, N2), and nothing else is as near:
+\* with w a positive multiple of the offset (perpendicular to the edge), the point is outside when w lies in the cone spanned by
+\* N1 and N2 and inside when it lies in the cone spanned by -N1 and -N2 - whichever of the two faces the search reports, however
+\* sharp the ridge or the groove (at a sharp groove an inside point is IN FRONT of one of the two faces).
+MeshEdgeSide(q, a, b, N1, N2) ==
+    LET d == VSub(b, a) dd == VDot(d, d) qa == VSub(q, a) w == VSub(VScale(dd, qa), VScale(VDot(qa, d), d))
+        s == SgnC(VDot(VCross(N1, N2), d)) c1 == SgnC(VDot(VCross(N1, w), d)) c2 == SgnC(VDot(VCross(w, N2), d)) IN
+    IF s = 0 THEN SideSet(SgnC(VDot(w, N1)))
+    ELSE IF c1 # -s /\ c2 # -s /\ (c1 # 0 \/ c2 # 0) THEN {1}
+    ELSE IF c1 # s /\ c2 # s /\ (c1 # 0 \/ c2 # 0) THEN {-1}
+    ELSE {-1, 1}
+MeshEdgeSides(q, vp, fs, m) ==
+    LET ts == Faces(vp, fs)
+        near == {k \in 1..Len(fs) : REq(TriD2P(q, ts[k]), m)} IN
+    IF Cardinality(near) # 2 THEN {-1, 1}
+    ELSE LET k1 == CHOOSE k \in near : TRUE k2 == CHOOSE k \in near : k # k1
+             common == {ts[k1][j] : j \in 1..3} \cap {ts[k2][j] : j \in 1..3} IN
+         IF Cardinality(common) # 2 THEN {-1, 1}
+         ELSE LET a == CHOOSE x \in common : TRUE b == CHOOSE x \in common : x # a
+                  d == VSub(b, a) dd == VDot(d, d) t == VDot(VSub(q, a), d)
+                  w == VSub(VScale(dd, VSub(q, a)), VScale(t, d)) IN
+              IF t > 0 /\ t < dd /\ REq(<<VDot(w, w), dd * dd>>, m)
+                 /\ Cardinality({k \in 1..Len(fs) : {a, b} \subseteq {ts[k][j] : j \in 1..3}}) = 2
+              THEN MeshEdgeSide(q, a, b, FaceN(ts[k1]), FaceN(ts[k2]))
+              ELSE {-1, 1}
+
 \* allowed signs in point mode.  Convex closed mesh: outside is the outward-normal side.
-\* Otherwise only queries whose closest point is the foot of the perpendicular on a closest face are decided.
+\* Otherwise queries whose closest point is the foot of the perpendicular on a closest face, or lies strictly inside an edge
+\* shared by two faces, are decided.
 MeshSides(q, vp, fs, convex) ==
     LET ts == Faces(vp, fs) m == MeshMinD2P(q, vp, fs) IN
     IF m[1] = 0 THEN {-1, 0, 1}
@@ -175,7 +202,7 @@ MeshSides(q, vp, fs, convex) ==
         IF \E k \in 1..Len(fs) : VDot(FaceN(ts[k]), VSub(q, ts[k][1])) > 0 THEN {1} ELSE {-1}
     ELSE LET F == {k \in 1..Len(fs) : /\ InsidePrism(q, ts[k][1], ts[k][2], ts[k][3])
                                        /\ REq(TriD2P(q, ts[k]), m)} IN
-         IF F = {} THEN {-1, 1}
+         IF F = {} THEN MeshEdgeSides(q, vp, fs, m)
          ELSE UNION {SideSet(SgnC(VDot(FaceN(ts[k]), VSub(q, ts[k][1])))) : k \in F}
 
 \* observation o: a (QM), da2 (|b-a|^2 * Q2), v2 (value^2 * Q2), sg, dir (QD), rec (a + dir*value, QM)
